@@ -45,6 +45,8 @@ def mono_hrank(ma, ln, p, q):
 
 class DecodeMobileAlloc(Contract):
     name = FUNC
+    # the names the invariants use for the function's locals, and the ROLE each plays (resolved on the AST when a local was renamed):
+    roles = {"i": ("ivar", None), "j": ("counter", 2), "f": ("array", "uint16_t"), "bit_index": ("ivar", 3)}
     cases = (("si4", 0), ("si4", 1))
 
     def __init__(self, serv=1, hopp=2, einval=22):
@@ -218,7 +220,10 @@ class DecodeMobileAlloc(Contract):
         try:
             T = c.ret_locals.i           # where the bitmap walk stopped
         except Unsupported:
-            return posts                 # early return: the loops were not reached
+            try:
+                T = c.ret_locals.bit_index       # renamed: the induction variable of loop 3 (Contract.roles)
+            except Unsupported:
+                return posts             # early return: the loops were not reached
         bit = lambda x: S.bit(ma, ln, x)
         hr = lambda x: S.hrank(ma, ln, x)
         c.instantiate(T)
